@@ -32,7 +32,7 @@ extern char *mpt_array_string(MPT_STRUCT(array) *arr)
 		return 0;
 	}
 	/* accept character data only */
-	if (!traits || (!(traits = mpt_type_traits('c')))) {
+	if (!traits && (!(traits = mpt_type_traits('c')))) {
 		errno = ENOTSUP;
 		return 0;
 	}
@@ -50,7 +50,8 @@ extern char *mpt_array_string(MPT_STRUCT(array) *arr)
 	if (!(sep = mpt_array_slice(arr, len, 1))) {
 		return 0;
 	}
-	str = (char *) (buf + 1);
+	/* the slice may have replaced the buffer */
+	str = (char *) (arr->_buf + 1);
 	*sep = '\0';
 	
 	return str;
